@@ -168,6 +168,11 @@ def migrateActivation (v1 : Val) : Val :=
 
 def setNats (v : Val) (f : Val → Val) : Val := v.set "nats" (f (v.field "nats"))
 
+/-- the kinds without a v1 form refuse a nats section that declares another type (repair D13) -/
+def declaredOk (kind : Str) (v : Val) : Bool :=
+  let t := ((v.field "nats").field "type").asStr
+  t == [] || t == kind
+
 /-- `load{Operator,Account,User,Activation}`: version switch with an error default -/
 def loadTyped (k : Kind) (ver : Int) (j : Json) : DRes Val :=
   match k with
@@ -206,8 +211,12 @@ def loadTyped (k : Kind) (ver : Int) (j : Json) : DRes Val :=
       pure (migrateActivation v)
     else if ver = 2 then decodeJson Gen.V2.ActivationClaims (zero Gen.V2.ActivationClaims) j
     else .error .err
-  | .authRequest => decodeJson Gen.V2.AuthorizationRequestClaims (zero Gen.V2.AuthorizationRequestClaims) j
-  | .authResponse => decodeJson Gen.V2.AuthorizationResponseClaims (zero Gen.V2.AuthorizationResponseClaims) j
+  | .authRequest => do
+    let v ← decodeJson Gen.V2.AuthorizationRequestClaims (zero Gen.V2.AuthorizationRequestClaims) j
+    if declaredOk Gen.V2.cAuthorizationRequestClaim v then pure v else .error .err
+  | .authResponse => do
+    let v ← decodeJson Gen.V2.AuthorizationResponseClaims (zero Gen.V2.AuthorizationResponseClaims) j
+    if declaredOk Gen.V2.cAuthorizationResponseClaim v then pure v else .error .err
   | .generic => decodeJson Gen.V2.GenericClaims (zero Gen.V2.GenericClaims) j
 
 structure Claims where
